@@ -126,6 +126,8 @@ def snapshot(obj, depth=6, _seen=None):
     out = {"__type__": type(obj).__name__}
     if d is not None:
         for k, v in d.items():
+            if k == "_order":
+                continue  # Controller._order is a global creation counter, not object state
             out[k] = snapshot(v, depth - 1, _seen)
     slots = []
     for k in type(obj).__mro__:
